@@ -28,7 +28,7 @@ def run(tier):
     progs = gen.c09_scope(tier)
     return run_e2e_property("C09", tier, EXPLANATION, "DESIGN §4 C09",
                             [("e2e-placement", progs, "place() at constant coordinates: literals, int variables, loops, calls, multi-tile")],
-                            contract_modules=["contracts.c11", "contracts.c15", "contracts.c09", "contracts.c02", "contracts.cdispatch"], extra=_fixed_box,
+                            contract_modules=["contracts.c11", "contracts.c15", "contracts.c09", "contracts.c02", "contracts.cdispatch", "contracts.c01c", "contracts.c14d"], extra=_fixed_box,
                             extra_modes=[("poles-medium", {"power_pole_type": "medium"})] + (
                                 [("poles-small", {"power_pole_type": "small"}), ("poles-big", {"power_pole_type": "big"}),
                                  ("poles-substation", {"power_pole_type": "substation"})] if tier != "quick" else []))
